@@ -425,8 +425,14 @@ func NewAuthenticator(config *SecurityConfig, s *stream.Stream) *Authenticator {
 		}
 	}
 
-	// Store the base64-encoded raw public key in config (HTCondor raw format)
-	config.ECDHPublicKey = base64.StdEncoding.EncodeToString(pubKeyBytes)
+	// Store the base64-encoded raw public key in config (HTCondor raw format).
+	// Callers share one SecurityConfig among concurrent handshakes (the client
+	// package, SecurityManager), so the per-handshake key goes into a private
+	// shallow copy: writing it into the caller's config is a data race, and lets
+	// one handshake advertise another's public key.
+	cfg := *config
+	cfg.ECDHPublicKey = base64.StdEncoding.EncodeToString(pubKeyBytes)
+	config = &cfg
 
 	return &Authenticator{
 		config:      config,
